@@ -3,7 +3,10 @@ package main
 import (
 	"fmt"
 	"net"
+	"runtime"
 	"strings"
+	"syscall"
+	"time"
 
 	"github.com/EdgeCast/vflow/zzverif/flowh"
 	"github.com/EdgeCast/vflow/zzverif/mck"
@@ -20,6 +23,7 @@ func init() {
 		spaces[n+".mutate"] = func(t string) mck.Space { return mutateSpace(p, flowSeeds(p), t) }
 		spaces[n+".history"] = func(t string) mck.Space { return historySpace(p, t) }
 		spaces[n+".dense"] = func(t string) mck.Space { return flowDense(p, t) }
+		spaces[n+".scaling"] = func(t string) mck.Space { return flowScaling(p, t) }
 	}
 }
 
@@ -535,5 +539,121 @@ func flowDense(p int, tier string) mck.Space {
 			w.Bytes(b)
 		}
 		return &dgram{proto: p, addr: addrs[d[2]*2], wire: w.B, class: fmt.Sprintf("%s:dense:%d x %s", protoNames[p], n, u.name), sig: protoNames[p] + ":dense:sets"}
+	}}
+}
+
+// flowScaling: the cost of processing ONE datagram must not grow with what the collector already holds. The same
+// datagram (24 template records / data of a known template / data of an unknown template) is processed with an
+// empty template cache and with one holding 50 000 and 200 000 templates of other exporters; cost = CPU time of this
+// thread (getrusage, not wall-clock time) over a calibrated number of repetitions (>= 40 ms for the empty cache). A
+// cost more than 40 times the empty-cache cost (plus 100 ms of slack) is a violation: per-datagram work that sweeps, copies or locks in proportion to the cache.
+func flowScaling(p int, tier string) mck.Space {
+	kinds := []string{"24 template records", "data of a known template", "data of an unknown template"}
+	sizes := []int{50000, 200000}
+	dims := mck.Radix{uint64(len(kinds)), uint64(len(sizes))}
+	return mck.FuncSpace{N: dims.Size(), F: func(idx uint64, c *mck.Ctx) {
+		d := dims.Digits(idx)
+		mk := func() []byte {
+			w := &ref.W{}
+			flowHeader(p, protoVersion(p), w)
+			tplSet := uint16(2)
+			if p == pV9 {
+				tplSet = 0
+			}
+			switch d[0] {
+			case 0:
+				body := &ref.W{}
+				for i := 0; i < 24; i++ {
+					body.U16(uint16(400 + i))
+					body.U16(2)
+					body.U16(8)
+					body.U16(4)
+					body.U16(12)
+					body.U16(4)
+				}
+				w.U16(tplSet)
+				w.U16(uint16(4 + len(body.B)))
+				w.Bytes(body.B)
+			case 1:
+				w.U16(300)
+				w.U16(4 + 64)
+				w.Bytes(fillBytes(64, 0))
+			default:
+				w.U16(999)
+				w.U16(4 + 64)
+				w.Bytes(fillBytes(64, 0))
+			}
+			return w.B
+		}
+		wire := mk()
+		victim := addrs[0]
+		prepare := func(n int) *flowh.Caches {
+			cc := flowh.NewCaches()
+			tw := &ref.W{}
+			flowHeader(p, protoVersion(p), tw)
+			tplSet := uint16(2)
+			if p == pV9 {
+				tplSet = 0
+			}
+			tw.U16(tplSet)
+			tw.U16(16)
+			tw.U16(300)
+			tw.U16(2)
+			tw.U16(8)
+			tw.U16(4)
+			tw.U16(12)
+			tw.U16(4)
+			flowh.Decode(p == pV9, victim, append([]byte{}, tw.B...), cc)
+			for i := 0; i < n; i++ {
+				flowh.Decode(p == pV9, net.IPv4(10, byte(i>>16), byte(i>>8), byte(i)), append([]byte{}, tw.B...), cc)
+			}
+			return cc
+		}
+		cost := func(cc *flowh.Caches, reps int) time.Duration {
+			runtime.LockOSThread()
+			defer runtime.UnlockOSThread()
+			best := time.Duration(1 << 62)
+			for round := 0; round < 3; round++ { // the best of three rounds: scheduling noise only ever adds
+				var a, b syscall.Rusage
+				syscall.Getrusage(1 /* RUSAGE_THREAD */, &a)
+				for k := 0; k < reps; k++ {
+					flowh.Decode(p == pV9, victim, append([]byte{}, wire...), cc)
+				}
+				syscall.Getrusage(1, &b)
+				t := time.Duration(b.Utime.Nano()-a.Utime.Nano()) + time.Duration(b.Stime.Nano()-a.Stime.Nano())
+				if t < best {
+					best = t
+				}
+			}
+			return best
+		}
+		desc := func() interface{} {
+			return map[string]interface{}{"protocol": protoNames[p], "datagram": kinds[d[0]], "templates_of_other_exporters_in_the_cache": sizes[d[1]]}
+		}
+		c.SetCase(desc)
+		c.Heartbeat()
+		// the repetition count is calibrated so that the empty-cache cost is well above the granularity of CPU-time
+		// accounting (which may be a scheduler tick of several milliseconds)
+		empty := prepare(0)
+		reps := 64
+		small := cost(empty, reps)
+		for small < 40*time.Millisecond && reps < 1<<17 {
+			reps *= 2
+			small = cost(empty, reps)
+		}
+		c.Heartbeat()
+		big := cost(prepare(sizes[d[1]]), reps)
+		c.Nontrivial(mck.Hash64([]byte(fmt.Sprint(p, d))))
+		c.Outcome("measured")
+		if big > 40*small+100*time.Millisecond {
+			dd := desc().(map[string]interface{})
+			dd["cpu_time_empty_cache"], dd["cpu_time_full_cache"] = small.String(), big.String()
+			c.Violation(protoNames[p]+":scaling:"+strings.ReplaceAll(kinds[d[0]], " ", "-"), fmt.Sprintf("%d repetitions of one datagram cost %v of CPU time with an empty cache and %v with %d templates of other exporters in it", reps, small, big, sizes[d[1]]), dd)
+		}
+		c.Sample(func() interface{} {
+			dd := desc().(map[string]interface{})
+			dd["cpu_time_empty_cache"], dd["cpu_time_full_cache"] = small.String(), big.String()
+			return dd
+		})
 	}}
 }
